@@ -703,6 +703,9 @@ pub fn applicable(op: &Op, m: &Msg, s: &Snap, pointer_free: bool) -> bool {
         Op::SetResponse(r) => *r || !has_recs,
         Op::Recompute => has_q && (pointer_free || !s.maybe_compressed),
         Op::Rename(_) => has_q,
+        // a query does not carry answer / authority records; an insertion that must FAIL (filler beyond the
+        // limit) is a legitimate history there too: the query must come out of it unchanged
+        Op::InsertFiller(sec, t) if !qr && *sec != Sec::Additional => *t > 8192 && (has_q || !s.maybe_compressed),
         Op::InsertText(sec, _) | Op::InsertFiller(sec, _) => (qr || *sec == Sec::Additional) && (has_q || !s.maybe_compressed),
         Op::InsertQuestion(_) => has_q || !s.maybe_compressed,
         Op::Cursor { sec, index, incl_opt, .. } => {
